@@ -143,12 +143,10 @@ impl Inner {
         unsafe {
             let parsed: String = crate::from_slice_unchecked(raw).ok()?;
             let parsed = Arc::into_raw(Arc::new(parsed)) as *mut ();
-            match self.unescaped.compare_exchange(
-                ptr,
-                parsed,
-                Ordering::AcqRel,
-                Ordering::Acquire,
-            ) {
+            match self
+                .unescaped
+                .compare_exchange(ptr, parsed, Ordering::AcqRel, Ordering::Acquire)
+            {
                 Ok(_) => Some(&*(parsed as *const String)),
                 Err(e) => {
                     Arc::decrement_strong_count(parsed);
